@@ -134,7 +134,8 @@ fn diff_value(key: &str, v: &str) -> &'static str {
 
 /// variant bits: 1 = CRLF, 2 = BOM, 4 = comments and blank lines, 8 = repeat section headers,
 /// 16 = trailing whitespace, 32 = UTF-16LE with BOM (bytes / path only), 64 = a comment line with a stray Latin-1 byte
-/// (not valid UTF-8; bytes / path only)
+/// (not valid UTF-8; bytes / path only), 128 = leading whitespace on every line and "Key : Value" spacing,
+/// 256 = a blank first line and no final newline, 512 = an empty and an unknown section before every section header
 pub fn render(lines: &[Line], variant: u32, salt: usize) -> Vec<u8> {
     let nl = if variant & 1 != 0 { "\r\n" } else { "\n" };
     let mut s = String::new();
@@ -144,6 +145,16 @@ pub fn render(lines: &[Line], variant: u32, salt: usize) -> Vec<u8> {
     for (i, l) in lines.iter().enumerate() {
         let sec = section_of(l);
         if sec != cur || variant & 8 != 0 {
+            if variant & 512 != 0 {
+                s.push_str(nl);
+                s.push_str("[Editor]");
+                s.push_str(nl);
+                s.push_str(nl);
+                s.push_str("[Foo]");
+                s.push_str(nl);
+                s.push_str("Bar:1");
+                s.push_str(nl);
+            }
             s.push_str(nl);
             s.push_str(&format!("[{sec}]"));
             s.push_str(nl);
@@ -187,11 +198,23 @@ pub fn render(lines: &[Line], variant: u32, salt: usize) -> Vec<u8> {
                 _ => BAD_DIFF[(salt + i) % BAD_DIFF.len()].to_string(),
             },
         };
-        s.push_str(&text);
+        if variant & 128 != 0 {
+            s.push_str("  ");
+            if matches!(l.k.as_str(), "mode" | "diff") {
+                s.push_str(&text.replacen(':', " : ", 1));
+            } else {
+                s.push_str(&text);
+            }
+        } else {
+            s.push_str(&text);
+        }
         if variant & 16 != 0 {
             s.push_str("  ");
         }
         s.push_str(nl);
+    }
+    if variant & 256 != 0 {
+        s = format!("{nl}{}", s.trim_end_matches(['\r', '\n']));
     }
     if variant & 32 != 0 {
         let mut b = vec![0xFF, 0xFE];
@@ -391,7 +414,7 @@ fn run_one(i: usize, sc: &Scenario, seed: u64, tmp: &str, out: &mut Out) {
         }
     }
     // one byte-level variant of the same content (same bad-line pool entries)
-    let variant = [1u32, 2, 4, 8, 16, 32, 1 | 2 | 16, 4 | 8, 64, 64 | 1 | 2][(salt / 3) % 10];
+    let variant = [1u32, 2, 4, 8, 16, 32, 1 | 2 | 16, 4 | 8, 64, 64 | 1 | 2, 128, 256, 512, 128 | 256 | 1, 512 | 4 | 16][(salt / 3) % 15];
     let vb = render(&sc.lines, variant, salt);
     let d = guarded(|| Beatmap::from_bytes(&vb));
     out.decodes += 1;
